@@ -347,8 +347,8 @@ fn spec(dim: usize) -> impl Strategy<Value = String> {
 
 fn chan_entry() -> impl Strategy<Value = String> {
     prop_oneof![
-        4 => (1usize..4).prop_flat_map(spec),
-        3 => (1usize..4).prop_flat_map(|d| (spec(d), spec(d))).prop_map(|(a, b)| format!("{a}:{b}")),
+        4 => prop_oneof![8 => 1usize..4, 1 => 4usize..7].prop_flat_map(spec),
+        3 => prop_oneof![8 => 1usize..4, 1 => 4usize..7].prop_flat_map(|d| (spec(d), spec(d))).prop_map(|(a, b)| format!("{a}:{b}")),
         2 => (any::<bool>(), "[ -~]{0,10}").prop_map(|(dq, content)| {
             let q = if dq { '"' } else { '\'' };
             let mut s = String::new();
